@@ -203,4 +203,32 @@ static inline unsigned gen_top(vf::Src &s, std::vector<tx::Packet> &out, std::ve
 }
 
 
+// EACEM triggers (TP 14-99-16): page 1E7 whose rows hold trigger strings "<url>[attr:value]...[checksum]". Triggers with a countdown
+// are kept by the decoder and fired later, [delete] removes a kept one, the same trigger sent again is ignored.
+static inline unsigned gen_eacem(vf::Src &s, std::vector<tx::Packet> &out) {
+	uint8_t txt[32]; memset(txt, 0x20, 32);
+	tx::HeaderFlags f; f.c4_erase = true;
+	out.push_back(tx::header(1, 0xE7, 0, f, txt));
+	unsigned n = 1 + s.pick(3);
+	for (unsigned k = 0; k < n; ++k) {
+		char buf[128]; int len = snprintf(buf, sizeof buf, "<http://%c.tv/%u>", 'a' + (int) s.pick(3), s.pick(3));
+		if (s.chance(1, 2)) len += snprintf(buf + len, sizeof buf - (size_t) len, "[name:%c%c]", 'A' + (int) s.pick(26), 'a' + (int) s.pick(26));
+		switch (s.pick(5)) { case 0: break; case 1: case 2: len += snprintf(buf + len, sizeof buf - (size_t) len, "[countdown:%u]", s.chance(1, 2) ? s.pick(4) : s.pick(100000)); break;
+			case 3: len += snprintf(buf + len, sizeof buf - (size_t) len, "[countdown:%uF%02u]", s.pick(3), s.pick(25)); break; default: len += snprintf(buf + len, sizeof buf - (size_t) len, "[active:%u]", s.pick(100)); break; }
+		if (s.chance(1, 4)) len += snprintf(buf + len, sizeof buf - (size_t) len, "[delete]");
+		if (s.chance(1, 6)) len += snprintf(buf + len, sizeof buf - (size_t) len, "[priority:%u]", s.pick(12));
+		if (len > 74) len = 74;
+		unsigned sum = 0; for (int i = 0; i + 1 < len; i += 2) sum += ((unsigned)(uint8_t) buf[i] << 8) + (uint8_t) buf[i + 1]; if (len & 1) sum += (unsigned)(uint8_t) buf[len - 1] << 8;
+		while (sum >> 16) sum = (sum & 0xFFFF) + (sum >> 16);
+		unsigned ck = ~sum & 0xFFFF; if (s.chance(1, 10)) ck ^= 1 + s.pick(0xFFFF);
+		len += snprintf(buf + len, sizeof buf - (size_t) len, "[%04X]", ck);
+		// a trigger may run over two rows
+		unsigned y = 1 + 2 * k;
+		for (int at = 0; at < len; at += 40, ++y) { uint8_t row[40]; memset(row, 0x20, 40); memcpy(row, buf + at, (size_t) std::min(40, len - at)); out.push_back(tx::row(1, y, row)); }
+	}
+	out.push_back(tx::header(1, 0xFF, 0x3F7F, f, txt));
+	return 0x1E7;
+}
+
+
 } // namespace l25
